@@ -173,6 +173,14 @@ func ZZ_C02_Tally() {
 	vs := keeper.ZZValidatorsOpt(env, chain, zzNumVals(), zzPowerBound(), false)
 	rec := &zzRecorder{}
 	k.ExternalEventProcessor = rec
+	// the orchestrator registry at tally time: the first validator has none, an ordinary account, or the operator
+	// account of the second validator (SetDelegateKeys allows it); votes are stored under validator addresses
+	switch vrt.Choose("orch.of.val0", 3) {
+	case 1:
+		k.SetOrchestratorValidatorAddress(ctx, chain, vs[0].Oper, sdk.AccAddress(append(make([]byte, 19), 0xee)))
+	case 2:
+		k.SetOrchestratorValidatorAddress(ctx, chain, vs[0].Oper, sdk.AccAddress(vs[1].Oper))
+	}
 	N := 1 + vrt.Uint64Below("N", 1<<56)
 	L := vrt.Uint64Below("lastObserved", 1<<56)
 	k.ZZSetLastObservedEventNonce(ctx, chain, L)
@@ -253,3 +261,42 @@ func ZZ_C02_Tally() {
 }
 
 func zzQuo(a, b *big.Int) *big.Int { return new(big.Int).Quo(a, b) }
+
+// ZZ_C03_FailedEventHasNoEffect: an event that reaches quorum is consumed exactly once (observed, nonce advanced)
+// whether its application succeeds or fails, and a failed application leaves no partial effect. The real tally,
+// TryEventVoteRecord, processExternalEvent and the real handler on a relay deposit (TransferToChainEvent to
+// another chain) whose second leg can fail (fee above the amount less commission) after the first leg has minted.
+func ZZ_C03_FailedEventHasNoEffect() {
+	st := keeper.ZZBuildState(keeper.ZZStateOpts{MaxPool: 0, MaxBatches: 0, ConcreteIds: true, Chains: []types.ChainID{"ethereum"}})
+	env := st.Env()
+	k, ctx, chain := env.K, env.Ctx, st.Chain()
+	idA, _ := st.Ids()
+	oper := sdk.ValAddress(append(make([]byte, 19), 9))
+	env.Staking.Vals = append(env.Staking.Vals, keeper.ZZVal{Oper: oper, Power: 10, Bonded: true})
+	L := vrt.Uint64Below("lastObserved", 1<<56)
+	k.ZZSetLastObservedEventNonce(ctx, chain, L)
+	amount := vrt.IntRange("amount", big.NewInt(0), new(big.Int).Lsh(big.NewInt(1), 128))
+	fee := vrt.IntRange("fee", big.NewInt(0), new(big.Int).Lsh(big.NewInt(1), 128))
+	sup0 := vrt.IntRange("supply", big.NewInt(0), new(big.Int).Lsh(big.NewInt(1), 200))
+	env.Bank.SetSupply("hub", sdk.NewIntFromBigInt(sup0))
+	ev := &types.TransferToChainEvent{EventNonce: L + 1, ExternalCoinId: idA, Amount: sdk.NewIntFromBigInt(amount), Fee: sdk.NewIntFromBigInt(fee),
+		Sender: "0x00000000000000000000000000000000000000aa", ReceiverChainId: "minter",
+		ExternalReceiver: "0x00000000000000000000000000000000000000bb", ExternalHeight: 5, TxHash: "0xdead"}
+	vrt.Assume(ev.Validate(chain) == nil)
+	k.ZZSetVoteRecord(ctx, chain, ev, []string{oper.String()}, false)
+	if vrt.Panics(func() { eventVoteRecordTally(ctx, chain, k) }) {
+		return // C05
+	}
+	vrt.Reach("c03.failed.tallied")
+	vrt.Assert("c03.failed.consumed-once", k.GetLastObservedEventNonce(ctx, chain) == L+1)
+	queued := len(keeper.ZZPoolOf(k, ctx, "minter"))
+	supplySame := env.Bank.SupplyOf("hub").BigInt().Cmp(sup0) == 0
+	clean := env.Bank.Balance(types.TempAddress, "hub").IsZero() && env.Bank.Balance(keeper.ZZModuleAddr(), "hub").IsZero()
+	if queued == 0 {
+		vrt.Reach("c03.failed.application-failed")
+		vrt.Assert("c03.failed.no-partial-effect", supplySame && clean)
+	} else {
+		vrt.Reach("c03.failed.application-succeeded")
+		vrt.Assert("c03.failed.success-is-complete", queued == 1 && supplySame && clean)
+	}
+}
